@@ -34,6 +34,16 @@ func (c *Ctx) GenerateAll(jobs []*GenJob, keepParser bool) {
 		if j.Text == "" && j.G != nil {
 			j.Text = j.G.Render(nil)
 		}
+		if j.G != nil && j.Ext == "" && i%3 == 1 {
+			// the output directory is not always empty when gocc is run: every third grammar finds
+			// there the output of an earlier generation of a sibling grammar - same names, token
+			// declarations and alternatives in another order, so the files have the same names and
+			// mostly the same sizes but other numbers
+			if pre := siblingText(j.G); pre != "" && pre != j.Text {
+				c.W.RunGocc(j.Name, []byte(pre), run.GoccOpts{Flags: j.Flags})
+				c.Add("generations_into_a_directory_holding_a_sibling_generation", 1)
+			}
+		}
 		j.Res = c.W.RunGocc(j.Name, []byte(j.Text), run.GoccOpts{Flags: j.Flags, Ext: j.Ext})
 		switch {
 		case j.Res.TimedOut:
@@ -53,6 +63,27 @@ func (c *Ctx) GenerateAll(jobs []*GenJob, keepParser bool) {
 			j.Info = c.W.Register(j.Name)
 		}
 	})
+}
+
+// siblingText renders g with its token declarations in reverse order and the alternatives of
+// every nonterminal in reverse order (the start symbol stays the head of the first block).
+func siblingText(g *gram.Grammar) string {
+	s := g.Clone()
+	var idx []int
+	for i, d := range s.Lex {
+		if d.Kind == gram.DTok {
+			idx = append(idx, i)
+		}
+	}
+	for a, b := 0, len(idx)-1; a < b; a, b = a+1, b-1 {
+		s.Lex[idx[a]], s.Lex[idx[b]] = s.Lex[idx[b]], s.Lex[idx[a]]
+	}
+	for _, d := range s.NTs {
+		for a, b := 0, len(d.Alts)-1; a < b; a, b = a+1, b-1 {
+			d.Alts[a], d.Alts[b] = d.Alts[b], d.Alts[a]
+		}
+	}
+	return s.Render(nil)
 }
 
 var pkgPathRe = regexp.MustCompile(`(?m)^(?:# )?` + regexp.QuoteMeta(run.ModPath) + `/(?:ad/ad_)?(g[0-9a-z_]+)`)
